@@ -33,15 +33,15 @@ TRIAGE: dict[str, tuple[str, str]] = {
     "src/pest/state.py::ParserState.ok|pop|self._pos_history.pop()|IndexError": (
         SAFE, "every ok() is preceded by a checkpoint() on the same path: obligation R1 of the operator analysis, checked on every abstract path of every operator and template"),
     "src/pest/state.py::ParserState.restore|pop|self._pos_history.pop()|IndexError": (SAFE, "as ParserState.ok (R1)"),
-    "src/pest/grammar/expressions/choice.py::OptimizedChoice.pattern|call|re.compile(self.build_optimized_pattern(), re.VERSION1)|regex.error": (
-        SAFE, "build_optimized_pattern assembles only re.escape()d literals, (?i:...) groups, \\p{...} classes from the constant registry and a character class of escaped code points (C12 pattern-fragment rule)"),
+    "src/pest/grammar/expressions/choice.py::OptimizedChoice.pattern|call|re.compile(self.build_optimized_pattern())|regex.error": (
+        SAFE, "build_optimized_pattern assembles only re.escape()d literals, (?ai:...) groups, \\p{...} classes from the constant registry and a character class of escaped code points (C12 pattern-fragment rule; C07 PATTERN and C02 O12 compile every pattern it emits on the model)"),
     "src/pest/grammar/expressions/choice.py::_optimize_char_class|subscript|merged[-1][1]|IndexError": (
         SAFE, "every element of merged is the two-element list [s, e] appended a few lines above"),
     "src/pest/grammar/expressions/choice.py::_optimize_char_class|call|ord(start)|TypeError": (
         SAFE, "ChoiceRange endpoints come from Range.start/stop, single characters by RE_CHAR + unescape (C10 token rule)"),
     "src/pest/grammar/expressions/choice.py::_optimize_char_class|call|ord(end)|TypeError": (SAFE, "as ord(start)"),
     "src/pest/grammar/expressions/choice.py::_optimize_char_class|call|ord(c)|TypeError": (
-        SAFE, "singles are one-character literals, or val.upper()/val.lower() admitted by build_optimized_pattern only when both have length 1"),
+        SAFE, "singles are one-character literals, or val.upper()/val.lower() of a one-character ASCII literal"),
     "src/pest/grammar/expressions/choice.py::_optimize_char_class|call|chr(s)|ValueError": (SAFE, "s and e are results of ord()"),
     "src/pest/grammar/expressions/choice.py::_optimize_char_class|call|chr(e)|ValueError": (SAFE, "s and e are results of ord()"),
     "src/pest/grammar/expressions/choice.py::build_optimized_pattern|raise|ValueError|ValueError": (
